@@ -161,9 +161,14 @@ define flow greeting
   bot say name
 
 define bot say name
-  "Your name is {{ name }}"
+  "Your name is $name"
 '''
-if MODE == "multistep":
+if MODE in ("general", "passthrough"):
+    # no user messages defined: a single general LLM call answers the user (passthrough: the raw request is sent)
+    APP, LLM = rails.build("", "passthrough: True\n" if MODE == "passthrough" else "")
+    GOOD = ["An answer"]
+    USER = "tell me a joke"
+elif MODE == "multistep":
     APP, LLM = rails.build(COLANG_PLAIN, "enable_multi_step_generation: True\n")
     GOOD = ["  ask joke", "bot tell joke", '  "A joke"']
     USER = "tell me a joke"
@@ -265,6 +270,10 @@ def literal_templates(t: int, q: int) -> bool:
     completion = ('  "%s"' % inner) if form == 0 else (inner if form == 1 else 'Bot message: "%s"' % inner)
     if MODE == "single":
         completion = "  ask joke\nbot tell joke\n" + (('  "%s"' % inner) if form != 1 else ("  " + inner))
+    if MODE == "value":
+        completion = '"%s"' % inner  # the generated value is later quoted by the predefined message "Your name is $name"
+    if MODE in ("general", "passthrough"):
+        completion = inner
     script = list(GOOD)
     script[-1] = completion
     LLM.reset(script=script + ["  extra"])
@@ -299,7 +308,7 @@ def hostile_twin(k0: int, k1: int, k2: int) -> bool:
     return reply.get("content") == "I'm not sure what to say."
 
 
-_POS = {"plain": 3, "single": 1, "value": 2, "multistep": 3}
+_POS = {"plain": 3, "single": 1, "value": 2, "multistep": 3, "general": 1, "passthrough": 1}
 SPEC = {
     "property": "C17",
     "functions": FUNCTIONS,
@@ -316,13 +325,13 @@ SPEC = {
         {"fn": "helpers_total", "slices": [{"part": 0}, {"part": 1}], "tcond": 900, "tpath": 60, "bound": "len <= 4",
          "smoke": [{"slice": {}, "args": dict(s='"\n# ')}, {"slice": {}, "args": dict(s="")}, {"slice": {}, "args": dict(s='a"')}]},
         {"fn": "prefixed_total", "slices": [{}], "tcond": 900, "tpath": 60, "bound": "5 prefixes + len <= 3"},
-        {"fn": "hostile_turn", "tiers": ("quick",), "slices": [{"mode": m, "pos": p, "fix2": 1} for m in ("plain", "single", "value", "multistep") for p in range(_POS[m])], "tcond": 900, "tpath": 60, "bound": "2 tokens (third fixed to empty)",
+        {"fn": "hostile_turn", "tiers": ("quick",), "slices": [{"mode": m, "pos": p, "fix2": 1} for m in ("plain", "single", "value", "multistep", "general", "passthrough") for p in range(_POS[m])], "tcond": 900, "tpath": 60, "bound": "2 tokens (third fixed to empty)",
          "smoke": [{"slice": {"mode": "plain", "pos": 1}, "args": dict(k0=6, k1=2, k2=7)}, {"slice": {"mode": "value", "pos": 1}, "args": dict(k0=3, k1=4, k2=0)}]},
-        {"fn": "hostile_turn", "tiers": ("thorough",), "slices": [{"mode": m, "pos": p, "first": f} for m in ("plain", "single", "value", "multistep") for p in range(_POS[m]) for f in range(len(ALPHABET)) if not (m == "multistep" and p == 1 and f == EVAL_ERR)], "tcond": 3000, "tpath": 60, "bound": "3 tokens, partitioned on the first"},
+        {"fn": "hostile_turn", "tiers": ("thorough",), "slices": [{"mode": m, "pos": p, "first": f} for m in ("plain", "single", "value", "multistep", "general", "passthrough") for p in range(_POS[m]) for f in range(len(ALPHABET)) if not (m == "multistep" and p == 1 and f == EVAL_ERR)], "tcond": 3000, "tpath": 60, "bound": "3 tokens, partitioned on the first"},
         {"fn": "hostile_turn", "tiers": ("quick", "thorough"), "slices": [{"mode": "multistep", "pos": 1, "first": f} for f in (6, 7, 12, 16, 18, 19, 20, 21, 22, 23, 24, 26)], "tcond": 1800, "tpath": 60,
          "bound": "multi-step generation: 3 tokens with the first one a Colang statement token"},
         {"fn": "hostile_known_region", "expect": "known_or_confirmed", "slices": [{"mode": "multistep", "pos": 1, "first": 7}], "tcond": 600, "tpath": 60, "bound": "recorded finding re-found"},
-        {"fn": "literal_templates", "slices": [{"mode": "plain"}, {"mode": "single"}], "tcond": 900, "tpath": 60, "bound": "5 templates x 3 forms"},
+        {"fn": "literal_templates", "slices": [{"mode": "plain"}, {"mode": "single"}, {"mode": "value"}, {"mode": "general"}], "tcond": 900, "tpath": 60, "bound": "5 templates x 3 forms"},
         {"fn": "hostile_twin", "expect": "counterexample", "slices": [{"mode": "plain"}], "tcond": 600, "tpath": 60, "bound": "twin"},
     ],
 }
